@@ -65,7 +65,8 @@ def cell_grid(ctx):
                 st, r = core.call_impl(P.brier_score_for_ensemble, f, o, "ens", thresholds, preserve_dims="all", fair_correction=fair,
                                        event_threshold_operator=op)
                 if st != "ok":
-                    ctx.tie_fail("brier_score_for_ensemble raised on the cell grid", {"n": n, "op": opn, "fair": fair}, r, "value")
+                    ctx.violation("brier_score_for_ensemble raises on valid inputs (cell grid)", {"ensemble_size": n, "operator": opn, "fair_correction": fair,
+                                                                                                  "thresholds": thresholds}, "values", r)
                     return
                 r = r.transpose("case", "threshold")
                 for k, (e, ov) in enumerate(cases):
@@ -219,9 +220,28 @@ def full_ens(ctx):
         if impl2[0] != "ok" or not np.allclose(np.asarray(impl[1]), np.asarray(impl2[1].transpose(*impl[1].dims)), rtol=0, atol=1e-9, equal_nan=True):
             ctx.violation(f"complementary operators disagree: {c['opn']} vs {c2['opn']}", desc, str(impl[1].values.tolist())[:200],
                           str(impl2[1])[:200])
+        # the reduced score is the NaN-skipping mean of weight * per-case score over the reduced dims
+        if c["rd"] is not None or c["pd"] is not None or c["w"] is not None:
+            pc = call_ens(P, dict(c, rd=None, pd="all", w=None))
+            if pc[0] == "ok":
+                check_mean_of_cases(ctx, "brier_score_for_ensemble", pc[1], c["w"], impl[1], desc)
         # custom name of the threshold dimension: same numbers under the other name
         if rng.random() < 0.3:
             check_threshold_dim_name(ctx, P, c, desc)
+
+
+def check_mean_of_cases(ctx, fn, per_case, weights, result, desc):
+    x = per_case if weights is None else per_case * weights
+    red = [d for d in x.dims if d not in result.dims]
+    exp = x.mean(dim=red) if red else x
+    try:
+        exp = exp.transpose(*result.dims)
+        ok = bool(np.allclose(np.asarray(result), np.asarray(exp), rtol=0, atol=1e-9, equal_nan=True))
+    except ValueError:
+        ok = False
+    if not ok:
+        ctx.violation(fn + ": reduced result is not the NaN-skipping mean of weight * per-case score over the reduced dimensions", desc,
+                      str(np.asarray(exp).tolist())[:200], str(np.asarray(result).tolist())[:200])
 
 
 def check_threshold_dim_name(ctx, P, c, desc):
@@ -285,7 +305,9 @@ def full_brier(ctx):
         if w is not None:
             kw["weights"] = w
         impl = core.call_impl(P.brier_score, fcst, obs, check_args=chk, **kw)
-        m = ctx.model("c13_brier_score", enc_list([enc_arr(fcst), enc_arr(obs), enc_dimspec(rd), enc_dimspec(pd), enc_opt(w, enc_arr), enc_bool(chk)]))
+        margs = [enc_arr(fcst), enc_arr(obs), enc_dimspec(rd), enc_dimspec(pd), enc_opt(w, enc_arr), enc_bool(chk)]
+        m = ctx.model("c13_brier_score", enc_list(margs + [enc_bool(False)]))
+        msp = ctx.model("c13_brier_score", enc_list(margs + [enc_bool(True)]))
         desc = {"fn": "brier_score", "fcst": gens.da_repr(fcst), "obs": gens.da_repr(obs), "weights": gens.da_repr(w), "reduce_dims": rd,
                 "preserve_dims": pd, "check_args": chk}
         nontrivial = impl[0] == "ok" and bool(np.isfinite(np.asarray(impl[1])).any())
@@ -298,6 +320,9 @@ def full_brier(ctx):
         ok, why = core.compare_result(impl, m)
         if not ok:
             ctx.tie_fail("brier_score vs model: " + why, desc, str(impl[1])[:300], str(m)[:300])
+        ok, why = core.compare_result(impl, msp)
+        if not ok:
+            ctx.violation("brier_score differs from the (weighted, NaN-skipping) mean squared difference: " + why, desc, str(msp)[:300], str(impl[1])[:300])
         # property: rejects exactly the invalid inputs (when checking), otherwise equals mse
         invalid = bad in ("fcst", "obs")
         mse = core.call_impl(C.mse, fcst, obs, **kw)
